@@ -452,6 +452,63 @@ def native_applications(task, tier, seed):
     return [Res(f"{task.name}.all", "bounded-ok", "bounded", time.time() - t0, msg, "bounded")]
 
 
+def shared_bytecode_cache(task, tier, seed):
+    """'for every sandboxed environment': also one whose generated code comes out of a bytecode cache that another
+    environment (different interception sets) filled - the cache key covers name, filename and source only (C27 finding F19)"""
+    from jinja2 import DictLoader
+    from jinja2.bccache import BytecodeCache
+    t0 = time.time()
+
+    class MemoryCache(BytecodeCache):
+        def __init__(self):
+            self.store = {}
+
+        def load_bytecode(self, bucket):
+            if bucket.key in self.store:
+                bucket.bytecode_from_string(self.store[bucket.key])
+
+        def dump_bytecode(self, bucket):
+            self.store[bucket.key] = bucket.bytecode_to_string()
+
+    bad = []
+    for kind, table in (("bin", BIN), ("un", UN)):
+        for cls, op in table.items():
+            calls = []
+
+            class Env(SB.SandboxedEnvironment):
+                intercepted_binops = frozenset([op]) if kind == "bin" else frozenset()
+                intercepted_unops = frozenset([op]) if kind == "un" else frozenset()
+
+                def call_binop(self, context, operator, left, right):
+                    calls.append(operator)
+                    return "HOOK"
+
+                def call_unop(self, context, operator, arg):
+                    calls.append(operator)
+                    return "HOOK"
+
+            src = "{{ a %s b }}" % op if kind == "bin" else "{{ %sa }}" % op
+            loader, cache = DictLoader({"t": src}), MemoryCache()
+            SB.SandboxedEnvironment(loader=loader, bytecode_cache=cache).get_template("t").render(a=7, b=2)
+            out = Env(loader=loader, bytecode_cache=cache).get_template("t").render(a=7, b=2)
+            if out != "HOOK" or calls != [op]:
+                bad.append(f"{src} (intercepting {op!r}) rendered {out!r} with hook calls {calls}")
+    if bad:
+        return [Res(f"{task.name}.diverges", "refuted", "bounded", time.time() - t0,
+                    f"code cached by a sandboxed environment WITHOUT interception is executed by one that intercepts the operator: {bad[0]} ({len(bad)} of {len(BIN) + len(UN)} operators)",
+                    "bounded", {"table": "shared_bytecode_cache"})]
+    return [Res(f"{task.name}.all", "bounded-ok", "bounded", time.time() - t0, "interception also holds for code taken from a shared bytecode cache", "bounded")]
+
+
+def replay_shared_cache(w=None):
+    rs = shared_bytecode_cache(type("T", (), {"name": "C20.bounded.shared_bytecode_cache"})(), "quick", 0)
+    return (rs[0].status == "refuted", rs[0].detail)
+
+
+shared_cache = FnTask("C20", "C20.bounded.shared_bytecode_cache", shared_bytecode_cache, "bounded", replay_shared_cache)
+shared_cache.bound_text = "every interceptable operator: template first loaded by a non-intercepting sandboxed environment, then by an intercepting one sharing the bytecode cache"
+shared_cache.finding_key = lambda res: "F19:cache-key-ignores-interception-sets"
+
 parser_nodes = FnTask("C20", "C20.bounded.parser_operator_nodes", parser_operator_nodes, "bounded", native_interception)
 parser_nodes.bound_text = ("16 operand forms per unary operator, 9 x 9 parenthesised operand forms per binary operator, parsed by the real Parser: "
                            "the node is the operator's class with the written operands (stands in for a contract on Parser.parse_unary / parse_math* / "
@@ -461,7 +518,7 @@ applications.bound_text = ("every interceptable operator x every single-operator
                            "applications written, with the written operands, and the rendered value is the hook's result")
 
 TASKS = (
-    [parser_nodes, applications] +
+    [parser_nodes, applications, shared_cache] +
     [EmitTask("C20", f"C20.emit.routed.{cls}", f"jinja2.compiler:CodeGenerator.visit_{cls}", getattr(N, cls), routed_predicate("bin", op), replay_fn=native_interception, min_paths=2) for cls, op in BIN.items()]
     + [EmitTask("C20", f"C20.emit.routed.{cls}", f"jinja2.compiler:CodeGenerator.visit_{cls}", getattr(N, cls), routed_predicate("un", op), replay_fn=native_interception, min_paths=2) for cls, op in UN.items()]
     + [NoFold(cls, "bin") for cls in BIN] + [NoFold(cls, "un") for cls in UN]
